@@ -396,6 +396,7 @@ type SkResult struct {
 	Changed []string // r<idx>|w<idx>@<when>=<content now>
 	Frames  []SkFrame
 	Joined  string
+	At      map[string]string // "r<idx>" / "w<idx>" -> rendering at delivery (the keys the Changed entries use)
 	Crashed bool
 	Stderr  string
 	Timeout string
@@ -502,7 +503,7 @@ func SkPlay(st []SkStep) *SkResult { return SkPlayMode(st, 0) }
 // SkPlayMode: mode 1 = a server whose write callbacks dawdle (the writer is still using a message
 // while the reader receives the next data), mode 2 = read callbacks dawdle (reads coalesce).
 func SkPlayMode(st []SkStep, mode int) *SkResult {
-	res := &SkResult{}
+	res := &SkResult{At: map[string]string{}}
 	s := skGet(mode)
 	base, _ := s.snapshot()
 	nbase := len(base)
@@ -606,8 +607,10 @@ func SkPlayMode(st []SkStep, mode int) *SkResult {
 		switch p[0] {
 		case "R":
 			res.Reads = append(res.Reads, p[3])
+			res.At["r"+p[2]] = p[3]
 		case "W":
 			res.Writes = append(res.Writes, p[3])
+			res.At["w"+p[2]] = p[3]
 		case "N":
 			res.NotSup = append(res.NotSup, strings.Join(p[2:], " "))
 		case "J":
